@@ -565,5 +565,5 @@ func runC02(c *Ctx) {
 	c.opSequences(c.N)
 	c.otherGenerators(8 + c.N/10)
 	// round 2: the operations of Model/MeshMore.lean (c03_more.go): shape vs model + WF on every result
-	c.moreOps(20+c.N/4, "c02.holds.wf", c.emitMore02)
+	c.moreOps(40+c.N/2, "c02.holds.wf", c.emitMore02)
 }
